@@ -102,3 +102,28 @@ def pipeline_model(ck, L, configs):
         if res.violated_invariant:
             bad.append(f"{n}-{conn}:{res.violated_invariant}")
     return bad
+
+
+def pipeline_faults_model(ck, L, configs, dump=True):
+    """Design-level model of the library's algorithm for ARBITRARY requests (PipelineFaults.tla): every N-list of signed Paulis (N = 2) / every sorted list
+    (N = 3) x both APIs x {requested connectivity, an unknown name} x every id the classifier may answer on junk x every sound layer.
+    Returns (violated invariants, outcomes) where outcomes[(kind, tuple(target))] = set of terminal phases the design admits ("done" / "raised")."""
+    from . import core
+    files = {"Exported.tla": core.exported_module(L)}
+    jobs = []
+    for (n, conn, targets) in configs:
+        invs = ["NoSilentWrong", "NoSpuriousRaise"] + (["DumpOutcome"] if dump and n == 2 else [])
+        c = tlc.cfg(spec="Spec", constants={"N": str(n), "Conn": tlc.tla_str(conn), "Targets": "<- " + targets, "ReqConns": tlc.tla_set([tlc.tla_str(conn), tlc.tla_str("bogus")])},
+                    invariants=invs, deadlock=True)
+        jobs.append((("PipelineFaults", c), dict(files=files, workers=8 if n > 2 else 4, heap="6g", timeout=7200)))
+    bad, outcomes = [], {}
+    for (n, conn, targets), res in zip(configs, tlc.run_many(jobs, parallel=2)):
+        tlc.require_ok(res, f"PipelineFaults {n}-{conn}")
+        ck.add_tlc(f"PipelineFaults(N={n},{conn},{targets})", res, note="every operator list x both APIs x every classifier answer on junk x every sound layer: NoSilentWrong, NoSpuriousRaise, no deadlock"
+                   + (f"; VIOLATED: {res.violated_invariant}" if res.violated_invariant else ""))
+        if res.violated_invariant:
+            bad.append(f"{n}-{conn}:{res.violated_invariant}")
+        if n == 2 and dump:
+            for x in res.json_lines():
+                outcomes.setdefault((n, conn, x["k"], tuple(x["t"])), set()).add(x["o"])
+    return bad, outcomes
